@@ -36,6 +36,9 @@ func ordTime(k int, zone int) time.Time {
 	if k == 0 {
 		return time.Time{}
 	}
+	if k >= 3 { // instants 2 and 3 (4 and 5, ...) differ by one nanosecond only: a comparator working on whole seconds ties them
+		return time.Unix(ordBase+int64(k-1)*2700, int64(k-2)).In(ordZones[zone%len(ordZones)])
+	}
 	return time.Unix(ordBase+int64(k)*2700, 0).In(ordZones[zone%len(ordZones)])
 }
 
@@ -46,6 +49,9 @@ func ordInstant(t time.Time) int {
 	d := t.Unix() - ordBase
 	if d%2700 != 0 {
 		return -1
+	}
+	if t.Nanosecond() > 0 {
+		return int(d/2700) + 1
 	}
 	return int(d / 2700)
 }
